@@ -2,29 +2,73 @@
 # The tracer's enabled flag under exceptions (C05)
 
 Mirrors `src/pynguin/instrumentation/tracer.py`: `ExecutionTracer.TracerLocalState.enabled`,
-`is_disabled/enable/disable`, the `_early_return` decorator, `track_line_visit`,
-`executed_compare_predicate/executed_bool_predicate/executed_exception_match` (as far as the flag
-and `executed_predicates` are concerned), `AbstractExecutionTracer.temporarily_disable` and
-`temporarily_enable`; and the way `TestCaseExecutor` (`testcase/execution.py`) brackets every
-statement: observers under `temporarily_disable`, the statement itself inside `try/except
-BaseException`, observers again under `temporarily_disable` (the assertion observer uses
-`temporarily_enable` inside).
+`is_disabled/enable/disable`, the `_early_return` decorator, and every callback the instrumented
+code makes, as far as the flag and the recorded trace are concerned:
 
-`Variant.repaired` is the code after `proposed_fixes/C05-temporarily-disable-finally.diff`
-(`try: yield finally: self.enable()`), `Variant.legacy` the code before it (the statement after
-`yield` is skipped when the body raises).  No Mathlib.
+* `track_line_visit` (`covered_line_ids`), `executed_code_object` (`executed_code_objects`);
+* `executed_compare_predicate/executed_bool_predicate/executed_in_presence_predicate/
+  executed_exception_match` (`executed_predicates`): the operands are evaluated inside
+  `with self.temporarily_disable()` — this runs operator code of the module under test
+  (`__lt__`, `__eq__`, `__bool__`, `__contains__`), which is instrumented itself, makes callbacks of
+  its own and may raise *any* `BaseException`;
+* the checked-coverage callbacks `track_generic/track_memory_access/track_jump/track_call/
+  track_return` (append to `executed_instructions`) and `track_attribute_access`, which resolves
+  the attribute itself (`attribute_lookup`, `getattr`) *without touching the flag* — property
+  getters / `__getattr__` of the module under test run there, make callbacks and may raise — and
+  appends only afterwards;
+* `AbstractExecutionTracer.temporarily_disable` and `temporarily_enable`;
+
+and the way `TestCaseExecutor` (`testcase/execution.py`) brackets every statement: observers under
+`temporarily_disable`, the statement itself inside `try/except BaseException`, observers again under
+`temporarily_disable` (the assertion observer uses `temporarily_enable` inside).
+
+Exceptions come in two kinds (`Exc`): derived from `Exception`, or only from `BaseException`
+(`SystemExit`, `KeyboardInterrupt`, `GeneratorExit`); handlers of the module under test catch either
+`Exception` or `BaseException` (`Catch`).
+
+`Variant.repaired` is the code of the tree (`try: yield finally: self.enable()`); `Variant.legacy`
+the code before the repair (the statement after `yield` is skipped when the body raises);
+`Variant.exceptionOnly` a context manager that restores in `except Exception:` (+ after the `yield`)
+instead of `finally:`.  The last two only serve as counterexamples.  No Mathlib.
 -/
 namespace PynguinModel.TracerState
 
 inductive Variant
-  | repaired | legacy
+  | repaired | legacy | exceptionOnly
   deriving DecidableEq, Repr, Inhabited
 
-/-- What the trace records: `covered_line_ids` (an `OrderedSet`) and `executed_predicates`
-(a dict predicate id ↦ number of evaluations), both in insertion order. -/
+/-- The kind of a raised exception: an instance of `Exception`, or of `BaseException` only. -/
+inductive Exc
+  | exception | base
+  deriving DecidableEq, Repr, Inhabited
+
+/-- A handler: `except Exception:` or `except BaseException:` (also a bare `except:`). -/
+inductive Catch
+  | exception | base
+  deriving DecidableEq, Repr, Inhabited
+
+def Catch.catches : Catch → Exc → Bool
+  | .base, _ => true
+  | .exception, .exception => true
+  | .exception, .base => false
+
+/-- Does the restoring statement of `temporarily_disable/temporarily_enable` run when the body of
+the `with` ended with `r` (`none`: normally)? -/
+def Variant.restores : Variant → Option Exc → Bool
+  | _, none => true
+  | .repaired, some _ => true
+  | .legacy, some _ => false
+  | .exceptionOnly, some .exception => true
+  | .exceptionOnly, some .base => false
+
+/-- What the trace records: `covered_line_ids` (an `OrderedSet`), `executed_predicates`
+(a dict predicate id ↦ number of evaluations), `executed_instructions` (a list, checked coverage)
+and `executed_code_objects` (an `OrderedSet`), all in insertion order. -/
 structure Trace where
   lines : List Nat
   preds : List (Nat × Nat)
+  instrs : List Nat
+  codeObjs : List Nat
   deriving DecidableEq, Repr, Inhabited
 
 structure State where
@@ -32,7 +76,7 @@ structure State where
   trace : Trace
   deriving DecidableEq, Repr, Inhabited
 
-/-- `covered_line_ids.add(line_id)` -/
+/-- `OrderedSet.add` -/
 def addLine (ls : List Nat) (l : Nat) : List Nat := if l ∈ ls then ls else ls ++ [l]
 
 /-- `executed_predicates[p] = executed_predicates.get(p, 0) + 1` -/
@@ -42,87 +86,132 @@ def bump : List (Nat × Nat) → Nat → List (Nat × Nat)
 
 def Trace.addLine (t : Trace) (l : Nat) : Trace := { t with lines := TracerState.addLine t.lines l }
 def Trace.bump (t : Trace) (p : Nat) : Trace := { t with preds := TracerState.bump t.preds p }
+/-- `executed_instructions.append(...)` -/
+def Trace.addInstr (t : Trace) (i : Nat) : Trace := { t with instrs := t.instrs ++ [i] }
+/-- `executed_code_objects.add(c)` -/
+def Trace.addCodeObj (t : Trace) (c : Nat) : Trace :=
+  { t with codeObjs := TracerState.addLine t.codeObjs c }
 
 /-- Code that runs in the thread of a test case, as far as the tracer can tell. -/
 inductive Ev
   /-- `tracer.track_line_visit(l)` -/
   | line (l : Nat)
-  /-- `tracer.executed_*_predicate(..., p, ...)`; `raises`: evaluating the operands' comparison
-  (or truth value) raises, so the body of the callback raises inside `with temporarily_disable()` -/
-  | pred (p : Nat) (raises : Bool)
+  /-- `tracer.executed_code_object(c)` -/
+  | codeObj (c : Nat)
+  /-- `tracer.track_generic/track_memory_access/track_jump/track_call/track_return(..., i, ...)` -/
+  | instr (i : Nat)
+  /-- `tracer.executed_*_predicate(..., p, ...)`; `body` is the code that evaluating the operands'
+  comparison / truth value / membership test runs (operators of the module under test): it runs
+  inside `with self.temporarily_disable()` and may raise -/
+  | pred (p : Nat) (body : List Ev)
+  /-- `tracer.track_attribute_access(..., i, ..., attr_name, obj)`; `body` is the code that
+  resolving the attribute runs (property getter, `__getattr__`): it runs with the flag as it is and
+  may raise (e.g. `AttributeError`), in which case nothing is appended -/
+  | attr (i : Nat) (body : List Ev)
   /-- `with tracer.temporarily_disable(): body` -/
   | withDisabled (body : List Ev)
   /-- `with tracer.temporarily_enable(): body` -/
   | withEnabled (body : List Ev)
-  /-- `try: body` / `except BaseException: pass` — a handler of the module under test, or the
-  executor's own wrapper around `exec` -/
-  | tryExcept (body : List Ev)
+  /-- `try: body` / `except <c>: pass` — a handler of the module under test, or the executor's own
+  wrapper around `exec` (`c = .base`) -/
+  | tryExcept (c : Catch) (body : List Ev)
   /-- the code raises by itself -/
-  | raise
+  | raise (e : Exc)
   deriving Repr, Inhabited
 
+/-- Exit of `temporarily_disable` (`flag = true`) / `temporarily_enable` (`flag = false`) that had
+to switch the flag on entry. -/
+def restore (v : Variant) (flag : Bool) (r : State × Option Exc) : State × Option Exc :=
+  if v.restores r.2 then ({ r.1 with enabled := flag }, r.2) else r
+
+/-- End of a predicate callback that was entered with tracing enabled: `_update_metrics` (still
+inside the `with`), then the exit of `temporarily_disable`. -/
+def predFinish (v : Variant) (p : Nat) (r : State × Option Exc) : State × Option Exc :=
+  match r.2 with
+  | none => ({ r.1 with enabled := true, trace := r.1.trace.bump p }, none)
+  | some _ => restore v true r
+
+/-- End of `track_attribute_access`: `add_attribute_instruction` unless the lookup raised. -/
+def attrFinish (i : Nat) (r : State × Option Exc) : State × Option Exc :=
+  match r.2 with
+  | none => ({ r.1 with trace := r.1.trace.addInstr i }, none)
+  | some _ => r
+
+/-- `except <c>: pass` -/
+def handle {α : Type} (c : Catch) (r : α × Option Exc) : α × Option Exc :=
+  match r.2 with
+  | none => r
+  | some e => if c.catches e then (r.1, none) else r
+
 mutual
-/-- Run one event: the new state and whether an exception propagates out of it. -/
-def exec (v : Variant) (s : State) : Ev → State × Bool
+/-- Run one event: the new state and the exception that propagates out of it, if any. -/
+def exec (v : Variant) (s : State) : Ev → State × Option Exc
   | .line l =>
     -- @_early_return: `if self.is_disabled(): return`
-    if !s.enabled then (s, false) else ({ s with trace := s.trace.addLine l }, false)
-  | .pred p raises =>
-    if !s.enabled then (s, false)
+    if !s.enabled then (s, none) else ({ s with trace := s.trace.addLine l }, none)
+  | .codeObj c =>
+    if !s.enabled then (s, none) else ({ s with trace := s.trace.addCodeObj c }, none)
+  | .instr i =>
+    if !s.enabled then (s, none) else ({ s with trace := s.trace.addInstr i }, none)
+  | .pred p body =>
+    if !s.enabled then (s, none)
     else
       -- `with self.temporarily_disable():` — enabled here, so `self.disable()` … `self.enable()`
-      let s1 := { s with enabled := false }
-      if raises then
-        -- the body raises before `_update_metrics`
-        match v with
-        | .repaired => ({ s1 with enabled := true }, true)   -- finally: self.enable()
-        | .legacy => (s1, true)                               -- `self.enable()` is skipped
-      else ({ s1 with enabled := true, trace := s1.trace.bump p }, false)
+      predFinish v p (execList v { s with enabled := false } body)
+  | .attr i body =>
+    if !s.enabled then (s, none)
+    else attrFinish i (execList v s body)      -- no flag handling at all
   | .withDisabled body =>
     if !s.enabled then execList v s body        -- `if self.is_disabled(): yield; return`
-    else
-      let r := execList v { s with enabled := false } body
-      match v, r.2 with
-      | .legacy, true => r                      -- `self.enable()` is skipped
-      | _, _ => ({ r.1 with enabled := true }, r.2)
+    else restore v true (execList v { s with enabled := false } body)
   | .withEnabled body =>
     if s.enabled then execList v s body         -- `if not self.is_disabled(): yield; return`
-    else
-      let r := execList v { s with enabled := true } body
-      match v, r.2 with
-      | .legacy, true => r                      -- `self.disable()` is skipped
-      | _, _ => ({ r.1 with enabled := false }, r.2)
-  | .tryExcept body => ((execList v s body).1, false)
-  | .raise => (s, true)
+    else restore v false (execList v { s with enabled := true } body)
+  | .tryExcept c body => handle c (execList v s body)
+  | .raise e => (s, some e)
 
 /-- Run a block: stops at the first event that raises. -/
-def execList (v : Variant) (s : State) : List Ev → State × Bool
-  | [] => (s, false)
+def execList (v : Variant) (s : State) : List Ev → State × Option Exc
+  | [] => (s, none)
   | e :: es =>
     let r := exec v s e
-    if r.2 then r else execList v r.1 es
+    if r.2.isSome then r else execList v r.1 es
 end
 
 /-! ## Reference semantics: what *should* be recorded
 
 There is no flag: whether a callback records is decided by the lexical context `ctx`
-(inside `with temporarily_disable()` nothing is recorded, inside `with temporarily_enable()`
-everything is), and exceptions only affect control flow. -/
+(inside `with temporarily_disable()` — hence inside the operand evaluation of a predicate callback —
+nothing is recorded, inside `with temporarily_enable()` everything is), and exceptions only affect
+control flow. -/
+
+def refPredFinish (p : Nat) (r : Trace × Option Exc) : Trace × Option Exc :=
+  match r.2 with
+  | none => (r.1.bump p, none)
+  | some _ => r
+
+def refAttrFinish (i : Nat) (r : Trace × Option Exc) : Trace × Option Exc :=
+  match r.2 with
+  | none => (r.1.addInstr i, none)
+  | some _ => r
 
 mutual
-def ref (ctx : Bool) (t : Trace) : Ev → Trace × Bool
-  | .line l => (if ctx then t.addLine l else t, false)
-  | .pred p raises => if ctx then (if raises then (t, true) else (t.bump p, false)) else (t, false)
+def ref (ctx : Bool) (t : Trace) : Ev → Trace × Option Exc
+  | .line l => (if ctx then t.addLine l else t, none)
+  | .codeObj c => (if ctx then t.addCodeObj c else t, none)
+  | .instr i => (if ctx then t.addInstr i else t, none)
+  | .pred p body => if ctx then refPredFinish p (refList false t body) else (t, none)
+  | .attr i body => if ctx then refAttrFinish i (refList true t body) else (t, none)
   | .withDisabled body => refList false t body
   | .withEnabled body => refList true t body
-  | .tryExcept body => ((refList ctx t body).1, false)
-  | .raise => (t, true)
+  | .tryExcept c body => handle c (refList ctx t body)
+  | .raise e => (t, some e)
 
-def refList (ctx : Bool) (t : Trace) : List Ev → Trace × Bool
-  | [] => (t, false)
+def refList (ctx : Bool) (t : Trace) : List Ev → Trace × Option Exc
+  | [] => (t, none)
   | e :: es =>
     let r := ref ctx t e
-    if r.2 then r else refList ctx r.1 es
+    if r.2.isSome then r else refList ctx r.1 es
 end
 
 /-! ## Statements of a test case (`TestCaseExecutor._execute_test_case`) -/
@@ -138,46 +227,74 @@ structure Stmt where
 /-- `_before_statement_execution`; `_exec_statement` (catches `BaseException`);
 `_after_statement_execution`. -/
 def Stmt.events (st : Stmt) : List Ev :=
-  [.withDisabled st.before, .tryExcept st.body, .withDisabled st.after]
+  [.withDisabled st.before, .tryExcept .base st.body, .withDisabled st.after]
 
-/-- A script of tracer callbacks made by the module under test in which every callback that raises
-is caught by the module (the flat histories of the property statement). -/
-def caughtScript (cbs : List Ev) : List Ev := cbs.map fun c => .tryExcept [c]
+/-- A script of tracer callbacks made by the module under test in which every callback sits in a
+`try` of the module with handler `c` (the flat histories of the property statement). -/
+def caughtScript (c : Catch) (cbs : List Ev) : List Ev := cbs.map fun cb => .tryExcept c [cb]
 
-/-- `Ev` is a plain callback (`line` or `pred`). -/
-def Ev.isCallback : Ev → Bool
-  | .line _ => true
-  | .pred _ _ => true
+/-- The code run by a callback's operand / attribute evaluation does nothing the tracer sees, or
+just raises something the handler `c` catches. -/
+def simpleBody (c : Catch) : List Ev → Bool
+  | [] => true
+  | [.raise e] => c.catches e
   | _ => false
 
-/-- The snapshots `(is_disabled, covered lines, executed predicates)` after every primitive event,
-in execution order (what the correspondence run compares step by step). -/
+/-- `Ev` is a plain callback whose exception (if any) the handler `c` catches. -/
+def Ev.isCallback (c : Catch) : Ev → Bool
+  | .line _ => true
+  | .codeObj _ => true
+  | .instr _ => true
+  | .pred _ body => simpleBody c body
+  | .attr _ body => simpleBody c body
+  | _ => false
+
+/-- The snapshots `(is_disabled, covered lines, executed predicates, executed instructions, executed
+code objects)` after every primitive event, in execution order (what the correspondence run
+compares step by step). -/
 structure Snap where
   disabled : Bool
   lines : List Nat
   preds : List (Nat × Nat)
+  instrs : List Nat
+  codeObjs : List Nat
   deriving DecidableEq, Repr
 
-def snap (s : State) : Snap := ⟨!s.enabled, s.trace.lines, s.trace.preds⟩
+def snap (s : State) : Snap :=
+  ⟨!s.enabled, s.trace.lines, s.trace.preds, s.trace.instrs, s.trace.codeObjs⟩
 
 mutual
 def execLog (v : Variant) (s : State) : Ev → List Snap
   | .line l => [snap (exec v s (.line l)).1]
-  | .pred p r => [snap (exec v s (.pred p r)).1]
+  | .codeObj c => [snap (exec v s (.codeObj c)).1]
+  | .instr i => [snap (exec v s (.instr i)).1]
+  | .pred p body =>
+    (if !s.enabled then [] else execListLog v { s with enabled := false } body)
+      ++ [snap (exec v s (.pred p body)).1]
+  | .attr i body =>
+    (if !s.enabled then [] else execListLog v s body) ++ [snap (exec v s (.attr i body)).1]
   | .withDisabled body =>
     if !s.enabled then execListLog v s body
     else execListLog v { s with enabled := false } body ++ [snap (exec v s (.withDisabled body)).1]
   | .withEnabled body =>
     if s.enabled then execListLog v s body
     else execListLog v { s with enabled := true } body ++ [snap (exec v s (.withEnabled body)).1]
-  | .tryExcept body => execListLog v s body
-  | .raise => []
+  | .tryExcept _ body => execListLog v s body
+  | .raise _ => []
 
 def execListLog (v : Variant) (s : State) : List Ev → List Snap
   | [] => []
   | e :: es =>
     let r := exec v s e
-    execLog v s e ++ (if r.2 then [] else execListLog v r.1 es)
+    execLog v s e ++ (if r.2.isSome then [] else execListLog v r.1 es)
 end
+
+/-- The value of the flag after every event of a block, up to the first one that raises (what the
+executor sees between the statements of a test case). -/
+def flagsAfter (v : Variant) (s : State) : List Ev → List Bool
+  | [] => []
+  | e :: es =>
+    let r := exec v s e
+    r.1.enabled :: (if r.2.isSome then [] else flagsAfter v r.1 es)
 
 end PynguinModel.TracerState
